@@ -196,6 +196,9 @@ async def do_unwind(stack, block):
         return ("normal",)
     except (E, EB) as e:
         return ("raises", e.id)
+    except AssertionError as e:
+        # raised by the instruments themselves (e.g. the wrong protocol of a dual-protocol manager was used)
+        return ("raises", -7000 - (builtins.sum(map(ord, str(e))) % 1000))
 
 
 def run_history(ops, std):
